@@ -527,6 +527,10 @@ def obligations(tier, build):
                                   leverage="choice feasibility only (copy/pickle are C boundaries, elements concrete)",
                                   stubs=[]))
     import props._owners as owners_
+    obs.append(Obligation("class-routes/set", owners_.class_routes_harness("set"),
+                          bounds={"objects": "base-class instance, two subclasses with their own _c_items_changed, a second instance",
+                                  "listeners": "two listener objects that compare equal", "Undefined": "as item / key / value"},
+                          leverage="choice feasibility only"))
     obs.append(Obligation("detached/set", owners_.detached_harness("set"), bounds={"how the container lost its place": owners_.DETACH_HOWS,
                                                                                       "operations": "3 valid, 2 refused by the built-in"},
                           leverage="choice feasibility only"))
